@@ -140,6 +140,23 @@ def run(ctx):
                            what in ('self', 'self.item_index_map'), loc=loc(mem, n), detail='adds len(%s)' % what)
     if n_len == 0:
         ctx.unknown('T15.len', CLS, 'no negative-position normalisation found', ci.module.relpath)
+    # T15.neg: the position-taking entry points handle negative positions: a `pos < 0` test whose branch adds a length
+    for nm, pnames in (('_get_real_index', ['index']), ('__getitem__', ['index']), ('iter_slice', ['start', 'stop'])):
+        mem = prog.func('%s.%s' % (CLS, nm))
+        for pn in pnames:
+            if pn not in mem.params:
+                ctx.unknown('T15.neg', mem.fq, 'parameter %s not found' % pn, mem.loc)
+                continue
+            tests = [n for n in ast.walk(mem.node) if isinstance(n, ast.If) and any(
+                cmp_text(c, pn) == '%s < 0' % pn for c in ast.walk(n.test) if isinstance(c, ast.Compare))]
+            fixes = [n for n in tests if any(
+                (isinstance(x, ast.AugAssign) and txt(x.target) == pn and isinstance(x.op, ast.Add)) or
+                (isinstance(x, ast.Assign) and any(txt(t) == pn for t in x.targets) and any(
+                    isinstance(b, ast.BinOp) and isinstance(b.op, ast.Add) and pn in (txt(b.left), txt(b.right)) for b in ast.walk(x.value)))
+                for st in n.body for x in ast.walk(st))]
+            ctx.ob('T15.neg', mem.fq, 'a negative `%s` is brought into range by adding a length (a `%s < 0` test whose branch does so)'
+                   % (pn, pn), bool(fixes), loc=loc(mem, tests[0]) if tests else mem.loc,
+                   detail='%d test(s) `%s < 0`, %d with the addition' % (len(tests), pn, len(fixes)))
     # no method reaches into another instance's slot list / index map / dead-interval table (sharing the inner mutable
     # interval lists or skipping the other object's own bookkeeping)
     foreign = []
